@@ -2,7 +2,8 @@
 From Coq Require Import String.
 From Boltons Require Import Lib.Prelude Lib.C07_Str Spec.C07_Spec Gen.C07_Gen Model.C07_Model
      Proofs.C07_StrLemmas Proofs.C07_Rds Proofs.C07_Resolve Proofs.C07_Parse Proofs.C07_Navigate
-     Proofs.C07_Text Proofs.C07_RfcExamples Gen.C07_Src Proofs.C07_SrcEq Check.C07_Check
+     Proofs.C07_Text Proofs.C07_RfcExamples Gen.C07_Src Proofs.C07_SrcEq Gen.C07_Src2 Proofs.C07_SrcEq2
+     Check.C07_Check
      Proofs.C07_Refine Proofs.C07_RoundTrip Proofs.C07_Unrooted Proofs.C07_Case
      Proofs.C07_RefineUnrooted Proofs.C07_CaseAuth Proofs.C07_CaseRefine Proofs.C07_EmptyAuth
      Proofs.C07_CaseRoundTrip Proofs.C07_EmptyAuthRefine Proofs.C07_EmptyAuthText
@@ -32,6 +33,38 @@ Theorem C07_source_resolve_path_parts : forall parts,
   src_resolve_path_parts parts = resolve_path_parts parts.
 Proof. exact src_resolve_path_parts_eq. Qed.
 Print Assumptions C07_source_resolve_path_parts.
+
+(* URL.normalize as it is in the source now (with_case=True, the default navigate uses) *)
+Theorem C07_source_normalize : forall u, src_normalize u true = normalize u.
+Proof. exact src_normalize_eq. Qed.
+Print Assumptions C07_source_normalize.
+
+(* URL.navigate as it is in the source now: the body after the str/URL dispatch
+   (dest a URL object; orig_is_none = it was passed as one; dest_copy = URL(dest)) is the
+   model's  "absolute destination -> normalize it, else navigate_rel" ... *)
+Theorem C07_source_navigate : forall self dest orig_is_none dest_copy,
+  src_navigate_core self dest orig_is_none dest_copy =
+  if is_absolute_dest dest then normalize (if orig_is_none then dest_copy else dest)
+  else navigate_rel self dest.
+Proof. exact src_navigate_core_eq. Qed.
+Print Assumptions C07_source_navigate.
+(* ... and Model.navigate (what the correspondence run evaluates, and what
+   C07_navigate_text_partial / C07_refinement are about) is that body behind the dispatch,
+   whose text the translator pins *)
+Theorem C07_source_navigate_dispatch : forall self t as_url,
+  navigate self t as_url =
+  match url_of_text t with
+  | None => None
+  | Some dest =>
+      if as_url && is_absolute_dest dest
+      then match url_of_text (to_text dest) with
+           | Some copy => Some (src_navigate_core self dest true copy)
+           | None => None
+           end
+      else Some (src_navigate_core self dest as_url dest)
+  end.
+Proof. exact navigate_is_dispatch_then_core. Qed.
+Print Assumptions C07_source_navigate_dispatch.
 
 (* ---- the Spec itself ----------------------------------------------------------------------- *)
 (* the fuel of the transcribed 5.2.4 loop always suffices: None is never returned *)
